@@ -185,16 +185,12 @@ Section Inv.
   Lemma cur_nonzero s L E : Inv s L E -> 1 <= ndb s -> cur s = nthZ L (ndb s - 1) -> ndb s <= len L -> 2 <= cur s.
   Proof. intros (B & _) H1 Hc Hn. rewrite Hc. apply (b_ge2 _ _ _ B). apply in_or_app. left. apply in_L_nth. lia. Qed.
 
-  Lemma settle_ok s L E : Inv s L E ->
-    let s' := settle s in
-    Inv s' L E /\ chg s' = false /\ same_cursor s s' /\ (forall k, 0 <= k < len L -> d_bytes (truth_d s' L k) = d_bytes (truth_d s L k)).
+  Lemma flush_inv s L E : Inv s L E -> mw s = true ->
+    let s' := set_chg (fio_flush bs ofs s) false in
+    Inv s' L E /\ chg s' = false /\ same_cursor s s' /\ (forall k, 0 <= k < len L -> d_bytes (truth_d s' L k) = d_bytes (truth_d s L k))
+    /\ dk s' key = BHdr (fh s).
   Proof.
-    intros I. pose proof I as (B & HL & C). unfold settle.
-    destruct (mw s) eqn:Hw; simpl.
-    2:{ assert (Hc : chg s = false) by (destruct (chg s) eqn:Hc; [pose proof (b_chg _ _ _ B Hc); congruence|reflexivity]).
-        split; [exact I|]. split; [exact Hc|]. split; [unfold same_cursor; repeat split; reflexivity|reflexivity]. }
-    destruct (chg s) eqn:Hc.
-    2:{ split; [exact I|]. split; [exact Hc|]. split; [unfold same_cursor; repeat split; reflexivity|reflexivity]. }
+    intros I Hw. pose proof I as (B & HL & C). cbv zeta.
     destruct (flush_shape s Hw) as (Fpos & Fpinx & Fpind & Fndb & Fcur & Fchg & Fcext & Ffh & Fmw & Fmr & Fcd & Fdk).
     set (f := fio_flush bs ofs s) in *.
     assert (Hkey : h_key (fh s) = key) by (apply (b_hdr _ _ _ B)).
@@ -241,7 +237,7 @@ Section Inv.
     assert (Hbf : forall k, buffered (set_chg f false) k = buffered s k) by (intros k; unfold buffered; simpl; rewrite Fcur, Fndb; reflexivity).
     assert (Hbytes : d_bytes (cdata f) = d_bytes (cdata s) /\ d_next (cdata f) = d_next (cdata s)).
     { rewrite Fcd. destruct (flushes_data s); [|split; reflexivity]. unfold flush_data. destruct ofs; split; reflexivity. }
-    split; [|split; [reflexivity|split]].
+    split; [|split; [reflexivity|split; [|split]]].
     - (* Inv *)
       split; [|split].
       + constructor; simpl; try rewrite Ffh; try rewrite Fcext.
@@ -273,6 +269,20 @@ Section Inv.
     - unfold same_cursor. simpl. destruct Hbytes. repeat split; assumption.
     - intros k Hk. unfold truth_d. rewrite Hbf. destruct (buffered s k) eqn:Hb; simpl; [apply Hbytes|].
       unfold disk_d. simpl. rewrite (HdkL k Hk Hb). reflexivity.
+    - simpl. rewrite Fdk, Hkey, Z.eqb_refl. reflexivity.
+  Qed.
+
+  Lemma settle_ok s L E : Inv s L E ->
+    let s' := settle s in
+    Inv s' L E /\ chg s' = false /\ same_cursor s s' /\ (forall k, 0 <= k < len L -> d_bytes (truth_d s' L k) = d_bytes (truth_d s L k)).
+  Proof.
+    intros I. pose proof I as (B & HL & C). unfold settle.
+    destruct (mw s) eqn:Hw; simpl.
+    2:{ assert (Hc : chg s = false) by (destruct (chg s) eqn:Hc; [pose proof (b_chg _ _ _ B Hc); congruence|reflexivity]).
+        split; [exact I|]. split; [exact Hc|]. split; [unfold same_cursor; repeat split; reflexivity|reflexivity]. }
+    destruct (chg s) eqn:Hc.
+    2:{ split; [exact I|]. split; [exact Hc|]. split; [unfold same_cursor; repeat split; reflexivity|reflexivity]. }
+    destruct (flush_inv s L E I Hw) as (H1 & H2 & H3 & H4 & _). splits; assumption.
   Qed.
 
   Lemma idx_in_range n i : 0 <= i < n -> 0 <= i / bs < size2db n bs.
@@ -639,29 +649,36 @@ Section Inv.
   Qed.
 
   (* ---- adfFileSeekStart_ on a clean state ---- *)
-  Lemma seek_start_ok s L E ct : Inv s L E -> chg s = false -> Repr s L ct ->
-    exists s', seek_start bs ofs nobad s = (true, s') /\ Inv s' L E /\ Repr s' L ct /\ pos s' = 0 /\ chg s' = false
+  Lemma seek_start_cb s L E : CB s L E -> cext_ok s L E -> len (d_bytes (cdata s)) = bs ->
+    exists s', seek_start bs ofs nobad s = (true, s') /\ Inv s' L E /\ pos s' = 0 /\ chg s' = false
       /\ dk s' = dk s /\ fh s' = fh s /\ mw s' = mw s /\ mr s' = mr s /\ (fsize s <> 0 -> ndb s' = 1 /\ pind s' = 0 /\ cur s' <> 0).
   Proof.
-    intros I Hc R. pose proof (inv_cb s L E I Hc) as C. pose proof I as (B & HL & _).
+    intros C Hcx Hl0. pose proof C as (B & HL & Hc).
     unfold seek_start. set (s0 := set_cur (set_ndb (set_pind (set_pinx (set_pos s 0) 0) 0) 0) 0).
     assert (Hf0 : fsize s0 = fsize s) by reflexivity. rewrite Hf0.
     destruct (Z.eqb_spec (fsize s) 0) as [Hz|Hz].
     - assert (I0 : Inv s0 L E).
-      { split; [apply (cb_frame s); try reflexivity; try assumption; apply (b_cext _ _ _ B)|]. split; [exact HL|]. left. splits; try reflexivity; [exact Hz|].
-        destruct I as (_ & _ & [(_ & _ & _ & _ & _ & Hl0)|(_ & _ & _ & _ & _ & Hl0 & _)]); exact Hl0. }
+      { split; [apply (cb_frame s); try reflexivity; assumption|]. split; [exact HL|]. left. splits; try reflexivity; [exact Hz|exact Hl0]. }
       exists s0. splits; try reflexivity; try assumption; try contradiction.
-      split; [destruct R as (Hl & _); exact Hl|]. intros i Hi. rewrite Hf0 in Hi. lia.
     - destruct (len_pos_of_size s L E C Hz) as (HlL & Hsz).
-      assert (B0 : Base s0 L E) by (apply (cb_frame s); try reflexivity; try assumption; apply (b_cext _ _ _ B)).
+      assert (B0 : Base s0 L E) by (apply (cb_frame s); try reflexivity; assumption).
       destruct (read_next_ok s0 L E B0 Hc ltac:(simpl; lia) ltac:(unfold ext_cursor; simpl; lia) ltac:(simpl; lia))
         as (sn & Hrn & Ndk & Npos & Npind & Nndb & Ncur & Ncd & Nlen & Nnx & Nchg & Nfh & Nmw & Nmr & Nxc & Ncx).
       rewrite Hrn. exists sn. simpl in *.
       assert (In_ : Inv sn L E).
       { apply (inv_loaded s sn L E 0 C); try assumption; try lia. }
       splits; try assumption; try reflexivity.
-      + apply (repr_clean s sn L E ct); assumption.
-      + intros _. splits; try lia. rewrite Ncur. pose proof (b_ge2 _ _ _ B (nthZ L 0) ltac:(apply in_or_app; left; apply in_L_nth; lia)). lia.
+      intros _. splits; try lia. rewrite Ncur. pose proof (b_ge2 _ _ _ B (nthZ L 0) ltac:(apply in_or_app; left; apply in_L_nth; lia)). lia.
+  Qed.
+
+  Lemma seek_start_ok s L E ct : Inv s L E -> chg s = false -> Repr s L ct ->
+    exists s', seek_start bs ofs nobad s = (true, s') /\ Inv s' L E /\ Repr s' L ct /\ pos s' = 0 /\ chg s' = false
+      /\ dk s' = dk s /\ fh s' = fh s /\ mw s' = mw s /\ mr s' = mr s /\ (fsize s <> 0 -> ndb s' = 1 /\ pind s' = 0 /\ cur s' <> 0).
+  Proof.
+    intros I Hc R. pose proof I as (B & _ & Cu).
+    assert (Hl0 : len (d_bytes (cdata s)) = bs) by (destruct Cu as [(_ & _ & _ & _ & _ & Hl0)|(_ & _ & _ & _ & _ & Hl0 & _)]; exact Hl0).
+    destruct (seek_start_cb s L E (inv_cb s L E I Hc) (b_cext _ _ _ B) Hl0) as (s' & H1 & I' & P' & C' & D' & F' & W' & M' & N').
+    exists s'. splits; try assumption. apply (repr_clean s s' L E ct); assumption.
   Qed.
 
   (* ---- adfPos2DataBlock, adfFileReadExtBlockN ---- *)
@@ -1510,4 +1527,113 @@ Section Inv.
 
   Theorem fio_write_readonly s data al : mw s = false -> fio_write bs ofs nobad s data al = (s, 0, al).
   Proof. intros Hw. unfold fio_write. rewrite Hw. reflexivity. Qed.
+
+  (* ---- adfFileFlush / adfFileClose, then adfFileOpen: a later handle finds the same file ---- *)
+  Lemma zero_d_len : len (d_bytes (zero_d bs)) = bs.
+  Proof. unfold zero_d, len. cbn. rewrite zerosZ_length. lia. Qed.
+
+  Theorem close_open_ok s L E ct r w : Inv s L E -> Repr s L ct -> mw s = true ->
+    exists s', fio_open bs ofs nobad (fio_close bs ofs s) key r w = (true, s') /\ Inv s' L E /\ Repr s' L ct /\ pos s' = 0
+      /\ fsize s' = fsize s /\ mr s' = r /\ mw s' = w /\ chg s' = false.
+  Proof.
+    intros I R Hw. destruct (flush_inv s L E I Hw) as (If & Hcf & (Spos & Spinx & Spind & Sndb & Scur & Scext & Sfh & Smw & Smr & Sby & Snx) & Htr & Hkey).
+    set (f := set_chg (fio_flush bs ofs s) false) in *.
+    assert (Rf : Repr f L ct) by (apply (repr_same s f L ct); [unfold fsize; rewrite Sfh; reflexivity|destruct I as (_ & HL & _); exact HL|exact Htr|exact R]).
+    unfold fio_open, fio_close. change (dk (fio_flush bs ofs s)) with (dk f). rewrite Hkey.
+    set (s0 := init_handle bs (dk f) (fh s) r w).
+    unfold fio_seek. rewrite seek_gen_unfold. change (cur s0) with 0. cbn [Z.eqb negb andb]. rewrite andb_false_r.
+    unfold seek_tail. change (cur s0) with 0. cbn [Z.eqb negb andb]. unfold settle. change (chg s0) with false. rewrite andb_false_r. cbn [Z.eqb].
+    pose proof If as (Bf & HLf & _).
+    assert (C0 : CB s0 L E).
+    { split; [|split; [|reflexivity]].
+      - apply (cb_frame f (init_handle bs (dk f) (fh s) r w) L E (inv_cb f L E If Hcf)); [reflexivity|reflexivity|exact Logic.I|exact (eq_sym Sfh)].
+      - unfold fsize. cbn. unfold fsize in HLf. rewrite Sfh in HLf. exact HLf. }
+    destruct (seek_start_cb s0 L E C0 Logic.I zero_d_len) as (s' & Hss & I' & P' & C' & D' & F' & W' & M' & _).
+    exists s'. split; [exact Hss|]. splits; try assumption.
+    - apply (repr_clean f s' L E ct); try assumption. rewrite F'. exact (eq_sym Sfh).
+    - unfold fsize. rewrite F'. reflexivity.
+  Qed.
+
+  (* ---- a new file ---- *)
+  Theorem fio_new_ok d r w : Inv (fio_new bs d key r w) [] [] /\ Repr (fio_new bs d key r w) [] [] /\ pos (fio_new bs d key r w) = 0.
+  Proof.
+    unfold fio_new, init_handle. splits; try reflexivity.
+    - split; [|split].
+      + constructor.
+        * unfold hdr_ok. cbn -[zerosZ subZ]. splits; reflexivity.
+        * unfold fsize. cbn. lia.
+        * reflexivity.
+        * cbn. constructor; [intros []|constructor].
+        * intros b [].
+        * cbn. exact Logic.I.
+        * intros j Hj. unfold len in Hj. simpl in Hj. lia.
+        * intros k Hk. unfold len in Hk. simpl in Hk. lia.
+        * cbn. discriminate.
+      + unfold fsize. cbn -[size2db]. rewrite size2db_0. reflexivity.
+      + left. unfold fsize. cbn -[zero_d]. splits; try reflexivity. apply zero_d_len.
+    - split; [reflexivity|]. unfold fsize. cbn. intros i Hi. lia.
+  Qed.
+
+  (* ---- adfFileTruncate: same size (a seek) and growing (adfFileWriteFilled with zeros); shrinking is tied by the correspondence only ---- *)
+  Lemma write_filled_ok : forall fuel s size al L E ct, Inv s L E -> Repr s L ct -> mw s = true -> pos s = fsize s -> al_ok L E al -> 0 <= size ->
+    exists s' w al' L' E', write_filled bs ofs nobad fuel s size al = (s', w, al') /\ Inv s' L' E' /\ Repr s' L' (ct ++ zerosZ w) /\ 0 <= w <= size
+      /\ pos s' = fsize s' /\ fsize s' = fsize s + w /\ mw s' = true /\ mr s' = mr s.
+  Proof.
+    induction fuel as [|fuel IH]; intros s size al L E ct I R Hw Hp Hal Hsz.
+    - exists s, 0, al, L, E. cbn [write_filled]. change (zerosZ 0) with (@nil Z). rewrite app_nil_r. splits; try reflexivity; try assumption; try lia.
+    - cbn [write_filled]. destruct (Z.leb_spec size 0).
+      { exists s, 0, al, L, E. change (zerosZ 0) with (@nil Z). rewrite app_nil_r. splits; try reflexivity; try assumption; try lia. }
+      set (cl := Z.min size 4096).
+      destruct (fio_write_ok s L E ct (zerosZ cl) al I R Hw Hal) as (s1 & w & al1 & L1 & E1 & Hfw & I1 & R1 & P1 & Hw1 & W1 & M1 & Hal1 & _).
+      rewrite Hfw. rewrite len_zerosZ in Hw1 by (subst cl; lia).
+      assert (Hlct : len ct = fsize s) by (destruct R as (Hl & _); exact Hl).
+      assert (Hct1 : ovw ct (pos s) (firstn (Z.to_nat w) (zerosZ cl)) = ct ++ zerosZ w).
+      { rewrite Hp, <- Hlct, ovw_end. rewrite firstn_zerosZ by lia. reflexivity. }
+      rewrite Hct1 in R1.
+      assert (Hf1 : fsize s1 = fsize s + w).
+      { destruct R1 as (Hl1 & _). rewrite len_app, len_zerosZ in Hl1 by lia. lia. }
+      destruct (Z.eqb_spec w cl) as [Hfull|Hshort]; cbn [negb].
+      + destruct (IH s1 (size - cl) al1 L1 E1 (ct ++ zerosZ w) I1 R1 W1 ltac:(lia) (Hal1 ltac:(rewrite len_zerosZ by (subst cl; lia); exact Hfull)) ltac:(subst cl; lia))
+          as (s2 & w2 & al2 & L2 & E2 & Hwf & I2 & R2 & Hw2 & P2 & F2 & W2 & M2).
+        rewrite Hwf. exists s2, (w + w2), al2, L2, E2. rewrite <- app_assoc, zerosZ_app in R2 by lia.
+        splits; try reflexivity; try assumption; try lia; try congruence.
+      + exists s1, w, al1, L1, E1. splits; try reflexivity; try assumption; try lia.
+  Qed.
+
+  Theorem fio_truncate_same_ok s L E ct al : Inv s L E -> Repr s L ct -> mw s = true ->
+    exists s', fio_truncate bs ofs nobad s (fsize s) al = (true, s', [], al) /\ Inv s' L E /\ Repr s' L ct /\ pos s' = fsize s /\ fsize s' = fsize s.
+  Proof.
+    intros I R Hw. unfold fio_truncate. rewrite Hw, Z.eqb_refl. cbn [negb]. pose proof I as (B & _).
+    destruct (fio_seek_ok s L E ct (fsize s) I R (b_size _ _ _ B)) as (s' & Hsk & I' & R' & P' & F' & _).
+    rewrite Hsk. exists s'. splits; try reflexivity; try assumption.
+    - rewrite P'. lia.
+    - unfold fsize. rewrite F'. reflexivity.
+  Qed.
+
+  Theorem fio_truncate_grow_ok s L E ct al sizeNew : Inv s L E -> Repr s L ct -> mw s = true -> al_ok L E al -> fsize s < sizeNew ->
+    exists ok s' al' L' E' w, fio_truncate bs ofs nobad s sizeNew al = (ok, s', [], al') /\ Inv s' L' E' /\ Repr s' L' (ct ++ zerosZ w)
+      /\ 0 <= w <= sizeNew - fsize s /\ (ok = true <-> w = sizeNew - fsize s) /\ pos s' = fsize s' /\ fsize s' = fsize s + w.
+  Proof.
+    intros I R Hw Hal Hgt. unfold fio_truncate. rewrite Hw. cbn [negb]. destruct (Z.eqb_spec sizeNew (fsize s)); [lia|].
+    destruct (Z.ltb_spec (fsize s) sizeNew); [|lia]. pose proof I as (B & _). pose proof (b_size _ _ _ B) as Hsz.
+    destruct (fio_seek_ok s L E ct (fsize s) I R Hsz) as (s1 & Hsk & I1 & R1 & P1 & F1 & W1 & M1).
+    rewrite Hsk. cbn [negb]. assert (Hf1 : fsize s1 = fsize s) by (unfold fsize; rewrite F1; reflexivity).
+    destruct (write_filled_ok (Z.to_nat ((sizeNew - fsize s) / 4096 + 2)) s1 (sizeNew - fsize s) al L E ct I1 R1 ltac:(congruence) ltac:(rewrite P1, Hf1; lia) Hal ltac:(lia))
+      as (s2 & w & al2 & L2 & E2 & Hwf & I2 & R2 & Hw2 & P2 & F2 & W2 & M2).
+    rewrite Hwf. exists (w =? sizeNew - fsize s), s2, al2, L2, E2, w. splits; try reflexivity; try assumption; try lia.
+  Qed.
+
+  (* ---- exhaustion: a refused allocation changes nothing (C08) ---- *)
+  Lemma create_next_refused s : create_next bs ofs s None = (false, s).
+  Proof. unfold create_next. destruct (ndb s <? MAXDB); [reflexivity|]. destruct (ndb s mod MAXDB =? 0); reflexivity. Qed.
+
+  Theorem fio_write_refused s data al : mw s = true -> pos s mod bs = 0 -> pos s = fsize s -> data <> [] ->
+    fio_write bs ofs nobad s data (None :: al) = (s, 0, al) /\ fio_write bs ofs nobad s data [] = (s, 0, []).
+  Proof.
+    intros Hw Hm Hp Hd. unfold fio_write. rewrite Hw. cbn [negb].
+    assert (Hf : exists f, Z.to_nat (Z.of_nat (length data) / bs + 2) = S f).
+    { assert (0 <= Z.of_nat (length data) / bs) by (apply Z.div_pos; lia). exists (Z.to_nat (Z.of_nat (length data) / bs + 1)). lia. }
+    destruct Hf as (f & ->). destruct data as [|b0 d0]; [contradiction|]. cbn [write_loop].
+    rewrite Hm, Hp, !Z.eqb_refl. cbn [tl]. rewrite create_next_refused. split; reflexivity.
+  Qed.
 End Inv.
